@@ -1,1 +1,5 @@
 //! Reference models.
+pub mod tex_arith;
+pub mod liang;
+pub mod hpack;
+pub mod dvi_track;
